@@ -263,7 +263,7 @@ TP_POOL = ["inf", "inf", 0.5, 1, 2, 4]
 
 @st.composite
 def memory_hierarchies(draw, wl, levels=(2, 3), finite_tp=False, fusion=True, glb_bindable=True,
-                       energy_pool=None, allow_leak=False):
+                       energy_pool=None, allow_leak=False, exact_sizes=False):
     """Main (+GLB (+Reg)) + MAC.  GLB size is drawn relative to the workload's tensor sizes so
     that capacity binds in a good fraction of cases."""
     ep = energy_pool or ENERGY_POOL
@@ -288,7 +288,10 @@ def memory_hierarchies(draw, wl, levels=(2, 3), finite_tp=False, fusion=True, gl
                 vals = max(1, vals // 2)
         else:
             vals = "inf"
-        size = "inf" if vals == "inf" else vals * bits
+        # capacity = vals values plus half a value: binds just like an integral capacity but no tile
+        # combination fills it exactly (exact fits hit a known float32 rounding finding, see
+        # known_findings.json C08 exact-fit); pass exact_sizes=True to generate integral capacities
+        size = "inf" if vals == "inf" else (vals * bits if exact_sizes else vals * bits + max(1, bits // 2))
         may_keep = draw(st.sampled_from(["All", "All", "Inputs", "Outputs", "~Inputs"]))
         keep = draw(st.sampled_from(["Nothing", "Nothing", "Nothing", "Outputs & " + may_keep])) if may_keep != "Inputs" else "Nothing"
         if li == 0 and main_keep != "All":
@@ -308,10 +311,10 @@ def memory_hierarchies(draw, wl, levels=(2, 3), finite_tp=False, fusion=True, gl
 @st.composite
 def specs(draw, shapes=("matmul", "chain2", "matvec", "elementwise"), levels=(2, 3),
           metrics=("ENERGY", "LATENCY", "ENERGY_DELAY_PRODUCT"), bound_pool=None, finite_tp=False,
-          fusion=True, glb_bindable=True, allow_leak=False, max_ops=2000, mapper_extra=None):
+          fusion=True, glb_bindable=True, allow_leak=False, max_ops=2000, mapper_extra=None, exact_sizes=False):
     wl = draw(workloads(shapes=shapes, bound_pool=bound_pool, max_ops=max_ops))
     nodes = draw(memory_hierarchies(wl, levels=levels, finite_tp=finite_tp, fusion=fusion,
-                                    glb_bindable=glb_bindable, allow_leak=allow_leak))
+                                    glb_bindable=glb_bindable, allow_leak=allow_leak, exact_sizes=exact_sizes))
     mapper = {"metrics": draw(st.sampled_from(list(metrics)))}
     if mapper_extra:
         mapper.update(draw(mapper_extra) if hasattr(mapper_extra, "map") else mapper_extra)
@@ -336,6 +339,11 @@ def run_mapper(spec, **kw):
 
     af.set_n_parallel_jobs(kw.pop("n_jobs", 1))
     try:
+        if "eval_in_detail" in kw:
+            # Spec.map_workload_to_arch does not forward eval_in_detail; the public function does
+            from accelforge.mapper.FFM.main import map_workload_to_arch
+
+            return map_workload_to_arch(spec, print_progress=False, **kw)
         return spec.map_workload_to_arch(print_progress=False, **kw)
     except Exception as e:  # noqa: BLE001
         msg = str(e)
@@ -348,3 +356,46 @@ def total_cols(mappings):
     df = mappings.data
     return {c.split("<SEP>", 1)[1]: [float(x) for x in df[c]] for c in df.columns
             if c.startswith("Total<SEP>") and c.split("<SEP>")[1] in ("energy", "latency", "energy_delay_product")}
+
+
+# ---------------------------------------------------------------------------
+# additive helpers (C28 / C04 / C03)
+# ---------------------------------------------------------------------------
+
+def rename(desc, names):
+    """Return a copy of a descriptor with einsum / tensor / component names replaced according to
+    ``names`` ({old: new}); set expressions (keep, may_keep, bits keys, persistent, per-tensor dict
+    keys) are rewritten on word boundaries.  Rank variables are left alone."""
+    import re
+
+    if not names:
+        return copy.deepcopy(desc)
+    pat = re.compile(r"\b(" + "|".join(re.escape(k) for k in sorted(names, key=len, reverse=True)) + r")\b")
+
+    def rs(s):
+        return pat.sub(lambda m: names[m.group(1)], s) if isinstance(s, str) else s
+
+    d = copy.deepcopy(desc)
+    for e in d["einsums"]:
+        e["name"] = names.get(e["name"], e["name"])
+        for t in e["tensors"]:
+            t[0] = names.get(t[0], t[0])
+    d["bits"] = {rs(k): v for k, v in d.get("bits", {"All": 8}).items()}
+    if d.get("persistent"):
+        d["persistent"] = rs(d["persistent"])
+    for n in d["nodes"]:
+        n["name"] = names.get(n["name"], n["name"])
+        for k in ("keep", "may_keep", "back", "no_refetch_from_above", "no_resend_to_below"):
+            if k in n:
+                n[k] = rs(n[k])
+        for k in ("bits_per_value", "values_per_action", "direction"):
+            if isinstance(n.get(k), dict):
+                n[k] = {rs(kk): v for kk, v in n[k].items()}
+    return d
+
+
+def einsum_tensors(desc):
+    """{einsum: [tensor names]} and the classification of tensors of a workload descriptor"""
+    outs = {t for e in desc["einsums"] for t, _, o in e["tensors"] if o}
+    ins = {t for e in desc["einsums"] for t, _, o in e["tensors"] if not o}
+    return {e["name"]: [t for t, _, _ in e["tensors"]] for e in desc["einsums"]}, outs & ins, ins - outs, outs - ins
